@@ -5,8 +5,14 @@ from __future__ import annotations
 from . import common, gram
 from .sexp import Sym
 
+import multiprocessing as _mp
+
 FUEL = 1500
-CASE_TIMEOUT = 2.0
+CASE_TIMEOUT = 1.5
+# shared across forked workers: once the real code has hung this often in one run, the remaining cases are skipped
+# (the hangs themselves are reported: the model says `hang` only where the code really loops)
+_TIMEOUTS = _mp.Value("i", 0)
+MAX_TIMEOUTS = 24
 
 
 def set_mode(pp, mode):
@@ -105,12 +111,16 @@ def eval_case(job):
     for mode in job.get("modes", [("none",)]):
         for s in job["inputs"]:
             for entry, opts in job["entries"]:
+                if _TIMEOUTS.value >= MAX_TIMEOUTS:
+                    return {"records": recs, "n_nodes": len(nodes), "kinds": sorted({str(n[0][0]) for n in nodes}), "cut": True}
                 set_mode(pp, mode)
                 keep = bool(root.keepTabs)  # transform_string sets it for good (core.py:1350)
                 try:
                     impl = common.with_alarm(CASE_TIMEOUT, gram.run_entry, pp, root, entry, s, opts)
                 except common.CaseTimeout:
                     impl = "hang"
+                    with _TIMEOUTS.get_lock():
+                        _TIMEOUTS.value += 1
                 finally:
                     pp.ParserElement.disable_memoization()
                 line = gram.model_line(mode_sexp(mode), entry, FUEL, ri, dw, s, keep, opts, nodes)
@@ -121,6 +131,7 @@ def eval_case(job):
 def run_jobs(ctx, stream, jobs, project=None, nontrivial=None):
     """run jobs on the real code (process pool) and on the model (driver); diff; returns list of diff dicts.
     project(model_text, impl_text, rec) -> (m, i) lets a property compare only the observables it speaks about."""
+    _TIMEOUTS.value = 0
     res = common.pmap(eval_case, jobs)
     cases, lines, impl = [], [], []
     skips = {}
